@@ -246,12 +246,21 @@ class Composition(Loggable):
 
         self.logger.info("run composition")
         while len(time_components) > 0:
-            sort_components = list(time_components)
+            sort_components = [
+                c for c in time_components if c.status != ComponentStatus.FINISHED
+            ]
+            if len(sort_components) == 0:
+                break
             sort_components.sort(key=lambda m: m.time)
             to_update = sort_components[0]
             updated = self._update_recursive(to_update)
             self._check_status(
-                updated, [ComponentStatus.VALIDATED, ComponentStatus.UPDATED]
+                updated,
+                [
+                    ComponentStatus.VALIDATED,
+                    ComponentStatus.UPDATED,
+                    ComponentStatus.FINISHED,
+                ],
             )
 
             any_running = False
